@@ -2,13 +2,19 @@
  *
  * One buffer per case (a fresh dynamic buffer at the start; N / K:<hex> replace it by a new
  * dynamic / const buffer).  ops (a leading '!' = the allocator refuses every request made
- * during that call):
+ * during that call; '!<n>' = it refuses the n-th request of the call, counted from 0, and only
+ * that one - used with sx, pb, ps, nd, nh):
  *   a:<hex> ab:<dec> a16:<dec> a32:<dec> as:<hex> av:<want>:<hex>
  *   f:<n> f16 f32 pb fd:<n>:<0|1> fs:<n> fi:<n> c:<n>
  *   t tr tc tf:<cap> ts:<cap> td tk
  *   sl:<len>:<fill> sp:<idx> rc
  *   ws:<0|1> nws ln:<0|1> cs:<hex> uc:<hex>:<0|1> bw:<hex>
  *   sx:<delims hex>:<flags>:<max>   fb fz   N K:<hex>
+ *   nd:<num>:<len> nh:<num>:<len>          ares_buf_append_num_dec / _hex
+ *   pb:<remaining_len>:<want 0|1>          ares_buf_parse_dns_binstr (want 0: bin == NULL)
+ *   ps:<remaining_len>:<want 0|1>          ares_buf_parse_dns_str
+ *     output <status>[:<bin_len>][/<bytes incl. the terminator>]; "/NULL" = success reported
+ *     with a NULL result
  * output: one line "<k> R tok tok ...", one token per op:
  *   <status>[:v,v...][/hex/hex...]@<len>,<pos>,<taglen>,<remaining hex>
  * ("-" = empty byte string).  When the tag lies beyond the offset (the caller moved below an
@@ -61,11 +67,19 @@ static void run_buf(long k, char *ops)
   printf("%ld R", k);
   for (op = strtok_r(ops, ";", &save); op; op = strtok_r(NULL, ";", &save)) {
     int           fail = 0;
+    long          fail_at = -1;
     unsigned long n = 0, m = 0, fl = 0;
     char          hx[4096];
     ares_status_t st;
     hx[0] = 0;
-    if (op[0] == '!') { fail = 1; op++; }
+    if (op[0] == '!') {
+      op++;
+      if (op[0] >= '0' && op[0] <= '9') {
+        fail_at = strtol(op, &op, 10);
+      } else {
+        fail = 1;
+      }
+    }
     printf(" ");
     if (ares_buf_tag_length(buf) > ares_buf_get_position(buf) && strcmp(op, "t") != 0 &&
         strcmp(op, "tc") != 0 && strncmp(op, "sp:", 3) != 0) {
@@ -73,6 +87,7 @@ static void run_buf(long k, char *ops)
       continue;
     }
     dsa_alloc_fail_all = fail;
+    dsa_alloc_fail_at  = fail_at;
     if (sscanf(op, "a:%4000[0-9a-f-]", hx) == 1) {
       size_t         len;
       unsigned char *d = get_hex(hx, &len);
@@ -141,10 +156,13 @@ static void run_buf(long k, char *ops)
       size_t      l = 0;
       const unsigned char *p;
       dsa_alloc_fail_all = 0;
+      dsa_alloc_fail_at  = -1;
       dest = ares_buf_create();
       dsa_alloc_fail_all = fail;
+      dsa_alloc_fail_at  = fail_at;
       st = ares_buf_fetch_bytes_into_buf(buf, dest, n);
       dsa_alloc_fail_all = 0;
+      dsa_alloc_fail_at  = -1;
       p = ares_buf_peek(dest, &l);
       printf("%d/", (int)st);
       put_hex(p, l);
@@ -230,6 +248,7 @@ static void run_buf(long k, char *ops)
       ares_array_t  *arr = NULL;
       st = ares_buf_split(buf, d, len, (ares_buf_split_t)fl, m, &arr);
       dsa_alloc_fail_all = 0;
+      dsa_alloc_fail_at  = -1;
       printf("%d:%zu", (int)st, arr ? ares_array_len(arr) : 0);
       for (i = 0; arr != NULL && i < ares_array_len(arr); i++) {
         ares_buf_t         **bp = ares_array_at(arr, i);
@@ -245,6 +264,7 @@ static void run_buf(long k, char *ops)
       unsigned char *p = (op[1] == 'b') ? ares_buf_finish_bin(buf, &l)
                                         : (unsigned char *)ares_buf_finish_str(buf, &l);
       dsa_alloc_fail_all = 0;
+      dsa_alloc_fail_at  = -1;
       if (p == NULL) {
         printf("0");
       } else {
@@ -264,6 +284,7 @@ static void run_buf(long k, char *ops)
         nb = ares_buf_create_const(nd, len);
       }
       dsa_alloc_fail_all = 0;
+      dsa_alloc_fail_at  = -1;
       if (nb == NULL) {
         printf("0");
         free(nd);
@@ -274,10 +295,38 @@ static void run_buf(long k, char *ops)
         cdata = nd;
         buf   = nb;
       }
+    } else if (sscanf(op, "nd:%lu:%lu", &n, &m) == 2) {
+      printf("%d", (int)ares_buf_append_num_dec(buf, (size_t)n, (size_t)m));
+    } else if (sscanf(op, "nh:%lu:%lu", &n, &m) == 2) {
+      printf("%d", (int)ares_buf_append_num_hex(buf, (size_t)n, (size_t)m));
+    } else if (sscanf(op, "pb:%lu:%lu", &n, &m) == 2) {
+      unsigned char *bin = NULL;
+      size_t         bl  = 0;
+      st = ares_buf_parse_dns_binstr(buf, n, m ? &bin : NULL, &bl);
+      dsa_alloc_fail_all = 0;
+      dsa_alloc_fail_at  = -1;
+      printf("%d", (int)st);
+      if (st == ARES_SUCCESS && m) {
+        printf(":%zu/", bl);
+        if (bin == NULL) printf("NULL"); else put_hex(bin, bl + 1);
+      }
+      ares_free(bin);
+    } else if (sscanf(op, "ps:%lu:%lu", &n, &m) == 2) {
+      char *str = NULL;
+      st = ares_buf_parse_dns_str(buf, n, m ? &str : NULL);
+      dsa_alloc_fail_all = 0;
+      dsa_alloc_fail_at  = -1;
+      printf("%d", (int)st);
+      if (st == ARES_SUCCESS && m) {
+        printf(":%zu/", str ? strlen(str) : (size_t)0);
+        if (str == NULL) printf("NULL"); else put_hex((unsigned char *)str, strlen(str) + 1);
+      }
+      ares_free(str);
     } else {
       printf("BADOP");
     }
     dsa_alloc_fail_all = 0;
+    dsa_alloc_fail_at  = -1;
     view(buf);
   }
   printf("\n");
